@@ -5,6 +5,7 @@ package conc
 import (
 	"fmt"
 	"testing"
+	"time"
 
 	col "github.com/craterdog/go-collection-framework/v4/collection"
 	"verifharness/core"
@@ -252,6 +253,73 @@ func execPipeE[E any](c pipeCase, src core.Source, cd lib.Codec[E]) (res core.Re
 	return
 }
 
+// ---------------------------------------------------------------- C06: fan-out sizes and input lists the pipeline functions refuse
+
+// Fork and Split refuse a fan-out below two, Join refuses an empty list of inputs.  A refusal must leave the
+// input stream and the caller's wait group alone; a call that is accepted instead must obey the stream law --
+// and with no output to deliver to, every value of the input would be lost.
+type refusedCase struct {
+	Fn     string `json:"fn"` // Fork Split Join
+	Size   uint   `json:"size"`
+	Values int    `json:"values"`
+}
+
+func execRefused(c refusedCase, _ core.Source) (res core.Result) {
+	n := lib.Notation()
+	Q := col.Queue[int](n)
+	input := Q.MakeWithCapacity(4)
+	for i := 0; i < c.Values; i++ {
+		input.AddValue(i + 1)
+	}
+	input.CloseQueue()
+	group := &counter{doneAt: map[*sched.G]int{}}
+	var outputs []col.QueueLike[int]
+	panicked, payload := lib.Call(func() {
+		switch c.Fn {
+		case "Fork":
+			outputs = Q.Fork(group, input, c.Size).AsArray()
+		case "Split":
+			outputs = Q.Split(group, input, c.Size).AsArray()
+		default:
+			outputs = []col.QueueLike[int]{Q.Join(group, col.List[col.QueueLike[int]](n).Make())}
+		}
+	})
+	desc := fmt.Sprintf("%s with fan-out %d on a closed input holding %d values", c.Fn, c.Size, c.Values)
+	if c.Fn == "Join" {
+		desc = "Join of an empty list of inputs"
+	}
+	if panicked {
+		if group.n != 0 {
+			res.Violation = core.Violate("C06/refused-call-touched-the-wait-group", "%s was refused (%s) but left the caller's wait group at %d", desc, lib.Short(payload), group.n)
+			return
+		}
+		if input.GetSize() != c.Values {
+			res.Violation = core.Violate("C06/refused-call-consumed-input", "%s was refused (%s) but the input now holds %d of its %d values", desc, lib.Short(payload), input.GetSize(), c.Values)
+			return
+		}
+		res.NonTrivial = true
+		res.Classes = append(res.Classes, "refused")
+		return
+	}
+	// accepted: wait until the helper has signed off, then every value must have gone to an output
+	deadline := time.Now().Add(5 * time.Second)
+	for group.n != 0 && time.Now().Before(deadline) {
+		time.Sleep(time.Millisecond)
+	}
+	delivered := 0
+	for _, out := range outputs {
+		if out != nil {
+			delivered += out.GetSize()
+		}
+	}
+	if c.Fn != "Join" && (uint(len(outputs)) != c.Size || delivered == 0 && c.Values > 0) {
+		res.Violation = core.Violate("C06/accepted-without-outputs", "%s was accepted with %d outputs: %d of the %d input values are left in the input, %d reached an output -- the rest is lost", desc, len(outputs), input.GetSize(), c.Values, delivered)
+		return
+	}
+	res.Classes = append(res.Classes, "accepted")
+	return
+}
+
 func TestC06(t *testing.T) {
 	r := core.Begin(t, "C06")
 	defer r.End()
@@ -271,4 +339,7 @@ func TestC06(t *testing.T) {
 		core.DFS(r, core.Check[pipeCase]{Name: name, Bounded: true, Gen: func(core.Source) pipeCase { return cfg }, Exec: execPipe}, r.N(2500, 100000))
 	}
 	core.Rapid(r, core.Check[pipeCase]{Name: "sampled-schedules", Gen: genPipe(r.N(4, 6)), Exec: execPipe}, r.N(2500, 40000))
+	core.DFS(r, core.Check[refusedCase]{Name: "refused-arguments", Gen: func(s core.Source) refusedCase {
+		return refusedCase{Fn: core.Pick(s, []string{"Fork", "Split", "Join"}, "fn"), Size: uint(s.Choose(2, "size")), Values: s.Choose(4, "values")}
+	}, Exec: execRefused}, 0)
 }
